@@ -35,7 +35,7 @@ Proof. intros s c. destruct c; cbn [WriterFacts.target call_dots call_name]; rew
 
 Theorem C01_structure : forall enc0 ver s0 cs orc chunk,
   writer_init enc0 ver = (s0, Ok tt) -> enc_ok enc0 ->
-  Forall call_good cs -> accepted s0 cs -> metas_encoded s0 cs -> guesses_ok s0 cs -> oracle_ok orc cs ->
+  Forall call_good cs -> accepted s0 cs -> metas_oracle_ok orc s0 cs -> guesses_ok s0 cs -> oracle_ok orc cs ->
   0 < chunk -> (Z.of_nat (length (w_out (snd (run_calls s0 cs)))) <= sys_maxsize)%Z ->
   let rs := fst (read_all orc chunk (w_out (snd (run_calls s0 cs)))) in
   snd (read_all orc chunk (w_out (snd (run_calls s0 cs)))) = TEnd /\
@@ -103,7 +103,7 @@ Qed.
 
 Theorem C01_content : forall enc0 ver s0 cs orc chunk,
   writer_init enc0 ver = (s0, Ok tt) -> enc_ok enc0 ->
-  Forall call_good cs -> accepted s0 cs -> metas_encoded s0 cs -> guesses_ok s0 cs -> oracle_ok orc cs ->
+  Forall call_good cs -> accepted s0 cs -> metas_oracle_ok orc s0 cs -> guesses_ok s0 cs -> oracle_ok orc cs ->
   0 < chunk -> (Z.of_nat (length (w_out (snd (run_calls s0 cs)))) <= sys_maxsize)%Z ->
   exists r0 rs, fst (read_all orc chunk (w_out (snd (run_calls s0 cs)))) = r0 :: rs /\
                 r_payload r0 = PNone /\ Forall2 content_matches cs (map r_payload rs).
@@ -206,7 +206,7 @@ Qed.
 
 Theorem C01_options : forall enc0 ver s0 cs orc chunk,
   writer_init enc0 ver = (s0, Ok tt) -> enc_ok enc0 ->
-  Forall call_good cs -> accepted s0 cs -> metas_encoded s0 cs -> guesses_ok s0 cs -> oracle_ok orc cs ->
+  Forall call_good cs -> accepted s0 cs -> metas_oracle_ok orc s0 cs -> guesses_ok s0 cs -> oracle_ok orc cs ->
   0 < chunk -> (Z.of_nat (length (w_out (snd (run_calls s0 cs)))) <= sys_maxsize)%Z ->
   exists r0 rs, fst (read_all orc chunk (w_out (snd (run_calls s0 cs)))) = r0 :: rs /\
     r_opts r0 = expected_opts (main_opts enc0 ver) /\
@@ -358,14 +358,14 @@ Theorem C01_round_trip_encoded : forall enc0 ver s0 cs orc chunk,
   read_all orc chunk (w_out (snd (run_calls s0 cs))) = (main_record enc0 ver :: expected_records s0 1 cs, TEnd).
 Proof.
   intros enc0 ver s0 cs orc chunk Hinit He Ht Hg Hacc Hgs Horc Hchunk Hsize.
-  apply C01_round_trip; try assumption. eapply metas_encoded_init; eauto.
+  apply C01_round_trip; try assumption. apply metas_oracle_of_encoded. eapply metas_encoded_init; eauto.
 Qed.
 
-(* [metas_encoded] added (see RoundTrip.C01_round_trip): [enc_aligned] allows None everywhere, and a write_meta
+(* [metas_oracle_ok] added (see RoundTrip.C01_round_trip): [enc_aligned] allows None everywhere, and a write_meta
    with no encoding in force is now accepted and read back as bytes *)
 Theorem C01_round_trip_aligned : forall enc0 ver s0 cs orc chunk,
   writer_init enc0 ver = (s0, Ok tt) -> enc_aligned enc0 ->
-  Forall call_good cs -> Forall (fun c => enc_aligned (call_enc c)) cs -> accepted s0 cs -> metas_encoded s0 cs ->
+  Forall call_good cs -> Forall (fun c => enc_aligned (call_enc c)) cs -> accepted s0 cs -> metas_oracle_ok orc s0 cs ->
   oracle_ok orc cs ->
   0 < chunk -> (Z.of_nat (length (w_out (snd (run_calls s0 cs)))) <= sys_maxsize)%Z ->
   read_all orc chunk (w_out (snd (run_calls s0 cs))) = (main_record enc0 ver :: expected_records s0 1 cs, TEnd).
@@ -421,7 +421,7 @@ Qed.
 
 Theorem C01_round_trip_mixed : forall enc0 ver s0 cs orc chunk,
   writer_init enc0 ver = (s0, Ok tt) -> enc_ok enc0 ->
-  Forall call_good cs -> metas_encoded s0 (ok_calls s0 cs) -> guesses_ok s0 (ok_calls s0 cs) -> oracle_ok orc cs ->
+  Forall call_good cs -> metas_oracle_ok orc s0 (ok_calls s0 cs) -> guesses_ok s0 (ok_calls s0 cs) -> oracle_ok orc cs ->
   0 < chunk -> (Z.of_nat (length (w_out (snd (run_calls s0 cs)))) <= sys_maxsize)%Z ->
   read_all orc chunk (w_out (snd (run_calls s0 cs)))
   = (main_record enc0 ver :: expected_records s0 1 (ok_calls s0 cs), TEnd).
@@ -432,7 +432,7 @@ Proof.
 Qed.
 
 (* ------------------------------------------------------------------------------------------------ *)
-(* why [metas_encoded] is a hypothesis of C01_round_trip: without it the statement is false of the fixed writer.
+(* why [metas_oracle_ok] is a hypothesis of C01_round_trip: without it the statement is false of the fixed writer.
    DiffXWriter(encoding=None); write_meta({'k': 1}): accepted (before the fix: TypeError), the JSON is written as
    bytes under a header without encoding, the reader yields bytes and asks json.loads about BYTES; an oracle that
    satisfies [oracle_ok] (it answers for the JSON TEXT) need not answer that question. *)
@@ -441,7 +441,7 @@ Example C01_round_trip_unencoded_refuted :
     writer_init enc0 ver = (s0, Ok tt) /\ enc_ok enc0 /\ Forall call_good cs /\ accepted s0 cs /\
     guesses_ok s0 cs /\ oracle_ok orc cs /\ 0 < chunk /\
     (Z.of_nat (length (w_out (snd (run_calls s0 cs)))) <= sys_maxsize)%Z /\
-    ~ metas_encoded s0 cs /\
+    ~ metas_oracle_ok orc s0 cs /\
     read_all orc chunk (w_out (snd (run_calls s0 cs))) <> (main_record enc0 ver :: expected_records s0 1 cs, TEnd).
 Proof.
   set (j := JObj [(ascii_text (B "k"), JInt 1)]).
@@ -454,6 +454,42 @@ Proof.
   split; [split; [vm_compute; reflexivity|exact I]|].
   split; [constructor; [|constructor]; intros d0 Hd0; vm_compute in Hd0; injection Hd0 as <-; vm_compute; reflexivity|].
   split; [lia|]. split; [vm_compute; discriminate|].
-  split; [intros [H _]; vm_compute in H; discriminate H|].
+  split; [intros [[H|H] _]; [vm_compute in H; discriminate H|]|].
+  { specialize (H d eq_refl). vm_compute in H. discriminate H. }
   vm_compute. discriminate.
+Qed.
+
+(* ... and with an oracle that answers for the bytes the same program round-trips: all hypotheses of C01_round_trip
+   hold and the reader returns the dict (the new path of the fixed writer is covered, not excluded) *)
+Example C01_round_trip_unencoded_ex :
+  exists enc0 ver s0 cs orc,
+    writer_init enc0 ver = (s0, Ok tt) /\ enc_ok enc0 /\ Forall call_good cs /\ accepted s0 cs /\
+    ~ metas_encoded s0 cs /\ metas_oracle_ok orc s0 cs /\ guesses_ok s0 cs /\ oracle_ok orc cs /\
+    (Z.of_nat (length (w_out (snd (run_calls s0 cs)))) <= sys_maxsize)%Z /\
+    w_out (snd (run_calls s0 cs)) =
+      B "#diffx: version=1.0" ++ [x0a] ++ B "#.meta: format=json, length=15" ++ [x0a] ++
+      B "{" ++ [x0a] ++ B "    ""k"": 1" ++ [x0a] ++ B "}" ++ [x0a] /\
+    map r_payload (fst (read_all orc 96 (w_out (snd (run_calls s0 cs))))) = [PNone; PMeta (JObj [(ascii_text (B "k"), JInt 1)])] /\
+    read_all orc 96 (w_out (snd (run_calls s0 cs))) = (main_record enc0 ver :: expected_records s0 1 cs, TEnd).
+Proof.
+  set (j := JObj [(ascii_text (B "k"), JInt 1)]).
+  set (d := match json_dump j with Ok d => d | Err _ => [] end).
+  set (orc := [(oracle_key_text (ascii_text d ++ [10%N]), LoadsOk j); (oracle_key_bytes (d ++ [x0a]), LoadsOk j)]).
+  set (s0 := fst (writer_init WNone (WStr (ascii_text (B "1.0"))))).
+  set (cs := [WriteMeta (WDict j) WNone None]).
+  assert (Hi : writer_init WNone (WStr (ascii_text (B "1.0"))) = (s0, Ok tt)) by (vm_compute; reflexivity).
+  assert (Hg : Forall call_good cs) by (constructor; [split; [left; reflexivity|eexists; reflexivity]|constructor]).
+  assert (Ha : accepted s0 cs) by (unfold accepted; vm_compute; repeat constructor).
+  assert (Hmo : metas_oracle_ok orc s0 cs).
+  { split; [|exact I]. right. intros d0 Hd0. vm_compute in Hd0. injection Hd0 as <-. vm_compute. reflexivity. }
+  assert (Hgs : guesses_ok s0 cs) by (split; [vm_compute; reflexivity|exact I]).
+  assert (Ho : oracle_ok orc cs).
+  { constructor; [|constructor]. intros d0 Hd0. vm_compute in Hd0. injection Hd0 as <-. vm_compute. reflexivity. }
+  assert (Hsz : (Z.of_nat (length (w_out (snd (run_calls s0 cs)))) <= sys_maxsize)%Z) by (vm_compute; discriminate).
+  exists WNone, (WStr (ascii_text (B "1.0"))), s0, cs, orc.
+  split; [exact Hi|]. split; [left; reflexivity|]. split; [exact Hg|]. split; [exact Ha|].
+  split; [intros [H _]; vm_compute in H; discriminate H|].
+  split; [exact Hmo|]. split; [exact Hgs|]. split; [exact Ho|]. split; [exact Hsz|].
+  split; [vm_compute; reflexivity|]. split; [vm_compute; reflexivity|].
+  apply (C01_round_trip WNone _ s0 cs orc 96 Hi (or_introl eq_refl) Hg Ha Hmo Hgs Ho); [lia|exact Hsz].
 Qed.
